@@ -16,6 +16,8 @@ package frugal
 import (
 	"encoding/binary"
 	"fmt"
+	"io"
+	"unicode/utf8"
 
 	"github.com/apache/thrift/lib/go/thrift"
 )
@@ -35,7 +37,7 @@ var emptyFrameSize = []byte{0, 0, 0, 0}
 // to grow unbounded.
 func NewTMemoryOutputBuffer(size uint) *TMemoryOutputBuffer {
 	buffer := &TMemoryOutputBuffer{size, thrift.NewTMemoryBuffer()}
-	buffer.Write(emptyFrameSize)
+	buffer.TMemoryBuffer.Write(emptyFrameSize)
 	return buffer
 }
 
@@ -51,10 +53,63 @@ func (f *TMemoryOutputBuffer) Write(buf []byte) (int, error) {
 	return f.TMemoryBuffer.Write(buf)
 }
 
+// WriteString writes the string to the buffer. Returns ErrTooLarge if the write
+// would cause the buffer to exceed its limit.
+func (f *TMemoryOutputBuffer) WriteString(s string) (int, error) {
+	if f.limit > 0 && uint(len(s)+f.Len()) > f.limit {
+		f.Reset()
+		return 0, thrift.NewTTransportException(
+			TRANSPORT_EXCEPTION_REQUEST_TOO_LARGE,
+			fmt.Sprintf("Buffer size reached (%d)", f.limit))
+	}
+	return f.TMemoryBuffer.WriteString(s)
+}
+
+// WriteByte writes the byte to the buffer. Returns ErrTooLarge if the write
+// would cause the buffer to exceed its limit.
+func (f *TMemoryOutputBuffer) WriteByte(c byte) error {
+	if f.limit > 0 && uint(1+f.Len()) > f.limit {
+		f.Reset()
+		return thrift.NewTTransportException(
+			TRANSPORT_EXCEPTION_REQUEST_TOO_LARGE,
+			fmt.Sprintf("Buffer size reached (%d)", f.limit))
+	}
+	return f.TMemoryBuffer.WriteByte(c)
+}
+
+// WriteRune writes the UTF-8 encoding of the rune to the buffer, subject to
+// the limit.
+func (f *TMemoryOutputBuffer) WriteRune(r rune) (int, error) {
+	var b [utf8.UTFMax]byte
+	return f.Write(b[:utf8.EncodeRune(b[:], r)])
+}
+
+// ReadFrom appends everything read from r to the buffer, subject to the
+// limit.
+func (f *TMemoryOutputBuffer) ReadFrom(r io.Reader) (int64, error) {
+	var total int64
+	chunk := make([]byte, 512)
+	for {
+		n, err := r.Read(chunk)
+		if n > 0 {
+			if _, werr := f.Write(chunk[:n]); werr != nil {
+				return total, werr
+			}
+			total += int64(n)
+		}
+		if err == io.EOF {
+			return total, nil
+		}
+		if err != nil {
+			return total, err
+		}
+	}
+}
+
 // Reset clears the buffer
 func (f *TMemoryOutputBuffer) Reset() {
 	f.TMemoryBuffer.Reset()
-	f.Write(emptyFrameSize)
+	f.TMemoryBuffer.Write(emptyFrameSize)
 }
 
 // Bytes retrieves the framed contents of the buffer.
